@@ -722,6 +722,8 @@ def rule_select(ctx):
         for m in gg.nodes:
             if m.kind != "stmt" or not isinstance(m.ast, ast.Assign) or "settings" not in _loads(m.ast.value):
                 continue
+            if getattr(m.ast, "_tlsverif_expanded", False):
+                continue        # a new local that was substituted into its uses by the normaliser
             for t in m.ast.targets:
                 if not isinstance(t, ast.Name) or t.id.startswith("_") or t.id in nested:
                     continue
